@@ -6,6 +6,7 @@ From DustDDS Require Export Base.Machine WriterHist.WriterModel.
 Open Scope Z_scope.
 
 Record W_case : Type := mkWC {
+  wc_created : bool;                  (* create_datawriter succeeded (false: InconsistentPolicy, no events) *)
   wc_keyed : bool;
   wc_enabled0 : bool;                 (* enabled at creation (autoenable_created_entities) *)
   wc_qos : qos;
@@ -49,6 +50,7 @@ Definition sortZ (l : list Z) : list Z := fold_right insert_sorted [] l.
 Definition case_init (c : W_case) : writer := init (wc_keyed c) (wc_enabled0 c) (wc_qos c).
 
 Definition W_model_ok (c : W_case) : bool :=
+  Bool.eqb (qos_consistent (wc_qos c)) (wc_created c) &&
   let '(w, outs) := run (case_init c) (map fst (wc_evs c)) in
   list_eqb out_eqb outs (map snd (wc_evs c)) &&
   match wc_hist c with
@@ -62,11 +64,10 @@ Definition rem (h : Z) (l : list Z) : list Z := filter (fun x => negb (x =? h)) 
 Definition add (h : Z) (l : list Z) : list Z := if mem h l then l else h :: l.
 
 (* Specification-level state, computed from the replies only:
-   g_reg  instances registered by a successful register_instance or write and not unregistered since;
-   g_st1  instances unregistered and not registered again (finding C28-unregister-keeps-record);
-   g_st2  unknown instances for which a write was refused with OutOfResources
-          (finding C28-refused-write-registers-instance). *)
-Record ghost : Type := mkG { g_en : bool; g_reg : list Z; g_st1 : list Z; g_st2 : list Z }.
+   g_reg   instances registered by a successful register_instance or write and not unregistered since;
+   g_park  the instance of the write that is parked at the moment (it registers its instance
+           when it is finally answered Ok). *)
+Record ghost : Type := mkG { g_en : bool; g_reg : list Z; g_park : option Z }.
 
 Definition khandle (keyed : bool) (k : Z) : Z := if keyed then k else 0.
 
@@ -102,53 +103,49 @@ Definition c28_check (keyed : bool) (g : ghost) (o : op) (r : option rsl) : bool
   | _, _ => false
   end.
 
-Definition c28_next (keyed : bool) (g : ghost) (o : op) (r : option rsl) : ghost :=
+(* a completion answers the parked write: Ok registers its instance *)
+Definition g_complete (g : ghost) (d : done) : ghost :=
+  let '(_, c, _) := d in
+  match g_park g with
+  | Some h => mkG (g_en g) (if c =? 0 then add h (g_reg g) else g_reg g) None
+  | None => g
+  end.
+(* the call itself *)
+Definition g_call (keyed : bool) (g : ghost) (o : op) (r : option rsl) : ghost :=
   match o, r with
-  | OEnable, Some ROk => mkG true (g_reg g) (g_st1 g) (g_st2 g)
-  | ORegister k _, Some (RHandle (Some _)) =>
-    let h := khandle keyed k in mkG (g_en g) (add h (g_reg g)) (rem h (g_st1 g)) (rem h (g_st2 g))
-  | OWrite _ k _, Some ROk =>
-    let h := khandle keyed k in mkG (g_en g) (add h (g_reg g)) (rem h (g_st1 g)) (rem h (g_st2 g))
-  | OWrite _ k _, Some (RErr c) =>
-    let h := khandle keyed k in
-    if (c =? E_OUT_OF_RESOURCES) && negb (mem h (g_reg g)) && negb (mem h (g_st1 g))
-    then mkG (g_en g) (g_reg g) (g_st1 g) (add h (g_st2 g)) else g
-  | OUnregister k _, Some ROk =>
-    let h := khandle keyed k in mkG (g_en g) (rem h (g_reg g)) (add h (g_st1 g)) (rem h (g_st2 g))
+  | OEnable, Some ROk => mkG true (g_reg g) (g_park g)
+  | ORegister k _, Some (RHandle (Some _)) => mkG (g_en g) (add (khandle keyed k) (g_reg g)) (g_park g)
+  | OWrite _ k _, Some ROk => mkG (g_en g) (add (khandle keyed k) (g_reg g)) (g_park g)
+  | OWrite _ k _, Some RBlocked => mkG (g_en g) (g_reg g) (Some (khandle keyed k))
+  | OUnregister k _, Some ROk => mkG (g_en g) (rem (khandle keyed k) (g_reg g)) (g_park g)
   | _, _ => g
   end.
-
-(* the known-finding class an operation falls into: decided by the operation and the history
-   before it, never by its reply *)
-Definition op_key (o : op) : option Z :=
-  match o with
-  | ORegister k _ | OUnregister k _ | ODispose k _ | OLookup k | OWrite _ k _ => Some k
-  | _ => None
-  end.
-Definition c28_class (keyed : bool) (g : ghost) (o : op) : N :=
-  match op_key o with
-  | Some k => let h := khandle keyed k in
-              if mem h (g_st1 g) then 1%N else if mem h (g_st2 g) then 2%N else 0%N
-  | None => 0%N
+(* One event.  Only one write can be parked, so a write that is parked while another one was
+   parked before the event means the first completion of the event (a Timeout at the expiration
+   that already lay in the past) came before the call; all other completions come after it. *)
+Definition c28_next (keyed : bool) (g : ghost) (o : op) (out : out) : ghost :=
+  match g_park g, o_imm out, o_done out with
+  | Some _, Some RBlocked, d :: ds =>
+    fold_left g_complete ds (g_call keyed (g_complete g d) o (o_imm out))
+  | _, _, ds => fold_left g_complete ds (g_call keyed g o (o_imm out))
   end.
 
-(* classes of the operations whose reply breaks the contract, in order *)
-Fixpoint c28_walk (keyed : bool) (g : ghost) (l : list (ev * out)) : list N :=
+(* replies that break the contract (true = broken), in order *)
+Fixpoint c28_walk (keyed : bool) (g : ghost) (l : list (ev * out)) : list bool :=
   match l with
   | [] => []
   | (e, o) :: t =>
-    let rest := c28_walk keyed (c28_next keyed g (e_op e) (o_imm o)) t in
-    if c28_check keyed g (e_op e) (o_imm o) then rest else c28_class keyed g (e_op e) :: rest
+    negb (c28_check keyed g (e_op e) (o_imm o)) :: c28_walk keyed (c28_next keyed g (e_op e) o) t
   end.
 
 (* the specification-level state after a trace *)
 Fixpoint c28_ghost (keyed : bool) (g : ghost) (l : list (ev * out)) : ghost :=
   match l with
   | [] => g
-  | (e, o) :: t => c28_ghost keyed (c28_next keyed g (e_op e) (o_imm o)) t
+  | (e, o) :: t => c28_ghost keyed (c28_next keyed g (e_op e) o) t
   end.
 
-Definition ghost0 (c : W_case) : ghost := mkG (wc_enabled0 c) [] [] [].
+Definition ghost0 (c : W_case) : ghost := mkG (wc_enabled0 c) [] None.
 
 (* writer half of C19 on the observations: a refused call stores nothing.  Every successful
    write / dispose / unregister_instance takes the next sequence number, so the history shown to a
@@ -168,10 +165,9 @@ Definition hist_ok (c : W_case) : bool :=
 
 Definition C28_model_ok (c : W_case) : bool := W_model_ok c.
 Definition C28_oracle_ok (c : W_case) : bool :=
-  match c28_walk (wc_keyed c) (ghost0 c) (wc_evs c) with [] => hist_ok c | _ => false end.
-Definition C28_known (c : W_case) : N :=
-  let l := c28_walk (wc_keyed c) (ghost0 c) (wc_evs c) in
-  if existsb (N.eqb 0) l then 0%N else hd 0%N l.
+  negb (existsb (fun b => b) (c28_walk (wc_keyed c) (ghost0 c) (wc_evs c))) && hist_ok c.
+(* no recorded deviation is left *)
+Definition C28_known (c : W_case) : N := 0%N.
 
 (* ------------------------------- C27: RELIABLE KEEP_LAST writers block, never drop *)
 (* issue time and key of every write, by slot *)
@@ -276,17 +272,13 @@ Definition C27_oracle_ok (c : W_case) : bool :=
   forallb (c27_done_ok (q_mbt (wc_qos c)) (writes_of (wc_evs c))) (dones_of (wc_evs c)) &&
   c27_answered (q_mbt (wc_qos c)) (wc_evs c) &&
   c27_recv_ok c &&
-  c27_depth_ok c.
-(* class 1: the only thing wrong are second-blocked-write Error replies;
-   class 2: KEEP_LAST(0) (is_consistent accepts it) and only the depth bound fails *)
+  c27_depth_ok c &&
+  (* a KEEP_LAST(0) writer cannot be created *)
+  match q_hist (wc_qos c) with KeepLast 0 => negb (wc_created c) | _ => true end.
+(* class 1: the only thing wrong are second-blocked-write Error replies *)
 Definition C27_known (c : W_case) : N :=
-  let others :=
-    forallb (c27_done_ok (q_mbt (wc_qos c)) (writes_of (wc_evs c))) (dones_of (wc_evs c)) &&
-    c27_answered (q_mbt (wc_qos c)) (wc_evs c) && c27_recv_ok c in
-  if others && c27_depth_ok c &&
+  if forallb (c27_done_ok (q_mbt (wc_qos c)) (writes_of (wc_evs c))) (dones_of (wc_evs c)) &&
+     c27_answered (q_mbt (wc_qos c)) (wc_evs c) && c27_recv_ok c && c27_depth_ok c &&
+     match q_hist (wc_qos c) with KeepLast 0 => negb (wc_created c) | _ => true end &&
      forallb (fun r => c27_reply_ok r || c27_reply_second_blocked r) (c27_replies (wc_evs c))
-  then 1%N
-  else if others && forallb c27_reply_ok (c27_replies (wc_evs c)) &&
-          match q_hist (wc_qos c) with KeepLast 0 => true | _ => false end
-  then 2%N
-  else 0%N.
+  then 1%N else 0%N.
